@@ -456,7 +456,7 @@ class RawTU(object):
         """-> list of (label, expected, observed)"""
         env = dict(os.environ)
         env.update(RUN_ENV)
-        p = subprocess.run([self.exe], input=b'layout\n', stdout=subprocess.PIPE, stderr=subprocess.PIPE, timeout=60,
+        p = subprocess.run([self.exe], input=b'layout\n', stdout=subprocess.PIPE, stderr=subprocess.PIPE, timeout=600,
                            env=env)
         got = {}
         for l in p.stdout.decode().splitlines():
